@@ -96,7 +96,7 @@ def peak_case(draw):
     dims = draw(gen.extra_dims(maxdims=2, maxsize=3))
     npos = int(np.prod([n for _, n in dims])) if dims else 1
     profs = [draw(profile(nf)) for _ in range(min(npos, 4))]
-    return dict(fg=fg, dg=dg, dims=dims, profiles=profs, dtype=draw(st.sampled_from(["float64", "float32"])), lived=draw(gen.lived()))
+    return dict(fg=fg, dg=dg, dims=dims, profiles=profs, dtype=draw(st.sampled_from(["float64", "float32"])), lived=draw(gen.lived()), perm=draw(gen.perms()))
 
 
 def build_profile(p, nf, nd, fine=False):
@@ -135,6 +135,10 @@ def build(case):
     template = gen.build_dataarray(fg, dg, [dict(kind="zero", rs=0, amp=1.0)], dims, dtype=case["dtype"])
     data = arr.reshape(shape + ([nf, nd] if dg is not None else [nf]))
     out = template.copy(data=data)
+    if case.get("perm") is not None and out.ndim > 1:
+        order = [out.dims[i] for i in np.random.RandomState(case["perm"]).permutation(out.ndim)]
+        tr = out.transpose(*order)
+        out = tr.copy(data=np.ascontiguousarray(tr.values))
     if case.get("lived") is not None:
         gen.live_a_life(out, case["lived"])
     return out
